@@ -714,6 +714,10 @@ def c07(ctx, res):
     for text in (".orig x0000\nhalt\n.blkw xFFFE\n", ".orig x0000\nhalt\n.blkw xFFFD\n", ".orig x0001\nhalt\n.blkw xFFFD\n", "halt\n.blkw xCFFE\n",
                  ".orig xFFFE\nhalt\n", ".orig x0000\nhalt\n.blkw xFFFF\n", ".orig x0002\nhalt\n.blkw xFFFD\n"):
         cases.append((text, False, "largest_program"))
+    # the same statement twice in a row, the first at the very edge of its field: the second is one word out of reach
+    for text in ("far .fill x0\n.blkw xFE\nld r0, far\nld r0, far\n", "far .fill x0\n.blkw xFE\nbrnzp far\nbrnzp far\n", "st r1 far\nst r1 far\n.blkw xFE\nfar .fill x0\n",
+                 "far ret\n.blkw x3FE\njsr far\njsr far\n", "far .fill x0\n.blkw xFD\nlea r0 far\nlea r0 far\nlea r0 far\n"):
+        cases.append((text, False, "reason:second_of_two_equal_statements_out_of_reach"))
     # sources of more than a mebibyte (comments and blank lines) whose only error - or whose only statements - come last
     pad = "; " + "x" * 60 + "\n"
     big = pad * 18000
@@ -905,6 +909,9 @@ def watch_history(ctx, res, cp, prop, h, length=5, stack=False, ext_sources=Fals
         hist.append("add r0 r0 #1\nhalt\n")
         hist.append("buf .blkw #-2\nhalt\n")
         res.cls("watch_version_with_a_warning")
+        # a version of more than 128 KiB (comments) whose last line defines the label its first line uses
+        hist.append("lea r0 msg\nputs\nhalt\n" + ("; " + "-" * 70 + "\n") * 2000 + "msg .stringz \"hi\"\n")
+        hist.append("lea r0 msg\nputs\nhalt\n" + ("; " + "-" * 70 + "\n") * 2000 + "msg_ .stringz \"hi\"\n")
     hist.append(b"; caf\xe9\nloop add r0 r0 #1\nhalt\n")
     path = os.path.join(d, "w.asm")
     if symlinked:
@@ -1442,7 +1449,7 @@ def c08_surroundings(ctx, res, d):
     kinds = ["stdout_full", "stdout_reader_gone", "streams_closed", "dest_mtime_in_the_future", "tmpdir_missing", "tmpdir_other_fs", "stdout_is_the_destination_dir",
              "source_in_another_directory", "256_failing_statements", "512_failing_statements", "255_failing_statements",
              "destination_locked_elsewhere", "destination_open_elsewhere", "reference_65500_words_away", "reference_minus_65300_words_away"] + \
-            ["source_read_from_a_pipe", "failing_source_read_from_a_pipe", "case_twin_out_of_reach:FAR/far", "case_twin_out_of_reach:Far/far", "case_twin_out_of_reach:far/FAR",
+            ["program_of_65535_statements", "program_of_40000_statements", "source_read_from_a_pipe", "failing_source_read_from_a_pipe", "case_twin_out_of_reach:FAR/far", "case_twin_out_of_reach:Far/far", "case_twin_out_of_reach:far/FAR",
              "case_twin_within_reach:Data/DATA"] + \
             ["failure_behind_a_label_named:" + n for n in _DIRECTIVE_LIKE_LABELS] + ["valid_program_with_a_label_named:" + n for n in _DIRECTIVE_LIKE_LABELS[:8]]
     for kind in kinds:
@@ -1508,6 +1515,11 @@ def c08_surroundings(ctx, res, d):
                 else:
                     _write(os.path.join(base, "p.asm"), "ld r0 far\nlea r1 far\njsr far\n.blkw #65500\nfar halt\n")
                 expect_ok = False
+            elif kind.startswith("program_of_"):
+                # the largest programs there are: every word of them is in the object file
+                n_st = int(kind.split("_")[2])
+                _write(os.path.join(base, "p.asm"), ".orig x0000\nadd r0 r0 #1\n.blkw #%d\n.fill xBEEF\n" % (n_st - 2))
+                big_img = bytes.fromhex("00001021") + b"\x00\x00" * (n_st - 2) + bytes.fromhex("beef")
             elif kind.endswith("source_read_from_a_pipe"):
                 # the source can be read once (a pipe, as in `cat p.asm | lace compile /dev/stdin out.lc3`): what is
                 # assembled is what came through it
@@ -1569,6 +1581,12 @@ def c08_surroundings(ctx, res, d):
                 res.violate("C08/crash/" + kind, "`lace compile` hung or was killed by a signal (%s)" % rc, detail)
             elif rc == 0 and not expect_ok:
                 res.violate("C08/exit-0-for-a-rejected-source/" + kind, "exit 0 for a source no statement of which can be emitted (destination %s)" % ("unchanged" if after == before else "changed"), detail)
+            elif rc == 0 and kind.startswith("program_of_") and after is not None and after[0] == "file":
+                got = open(dest, "rb").read()
+                if got != big_img:
+                    res.violate("C08/exit-0-incomplete-file/" + kind, "exit 0 but the destination holds %d bytes; the complete object file of this program has %d" % (len(got), len(big_img)), detail)
+                else:
+                    res.cls("surroundings:compiled_all_the_same")
             elif rc == 0 and not (after is not None and after[0] == "file" and after[1] == img):
                 res.violate("C08/exit-0-incomplete-file/" + kind, "exit 0 but the destination does not hold the complete object file", detail)
             elif rc != 0 and after != before:
@@ -2774,6 +2792,21 @@ def c18_cli(ctx, res):
             elif "stack" not in text.replace("regs.asm", ""):
                 res.violate("C18/cli/diagnostic-does-not-name-feature", "`eval %s` without the flag is refused without naming the `stack` feature%s" % (mn, " (--minimal)" if mode else ""),
                             {"run": r.brief()})
+    # the flag's value is a list: every spelling of it that the command line takes (empty entries before or behind the
+    # name) switches the extension on
+    _write(os.path.join(d, "fs.asm"), "and r0 r0 #0\nadd r0 r0 #5\npush r0\npop r1\nadd r0 r1 #1\nputn\nhalt\n")
+    for spelling in (["-f", "stack"], ["-f", ",stack"], ["-f", "stack,"], ["-f", ",,stack"], ["--features", ",stack"], ["--features=stack,"], ["-f,stack"]):
+        for sub in ("run", "check", "compile"):
+            r = lace(ctx, [sub, "fs.asm"] + (["fs.lc3"] if sub == "compile" else []) + (["--minimal"] if sub == "run" else []) + spelling, cwd=d, stdin=b"")
+            res.evaluations += 1
+            res.cls("l2:flag_spelling")
+            text = (r.err + r.out).decode("utf-8", "replace")
+            if r.rc == 2 and "invalid value" in text or "unexpected argument" in text:
+                res.cls("l2:flag_spelling_refused_by_the_command_line")
+                continue
+            if r.rc != 0 or (sub == "run" and b"6" not in program_output(r.out)[0]):
+                res.violate("C18/cli/flag-on-not-honoured/spelling", "`lace %s fs.asm %s` (exit %s): the command line takes this spelling of the flag, and with the flag the program assembles and prints 6"
+                            % (sub, " ".join(spelling), r.rc), {"run": r.brief()})
     # ... and with the flag on they execute when given to `eval`, like in a program: PUSH/POP move a value, CALL pushes
     # the return address and goes to the routine, RETS comes back
     _write(os.path.join(d, "evalext.asm"), "add r0 r0 #5\nhalt\nf add r1 r1 #1\nrets\n")
@@ -2926,6 +2959,21 @@ def c09_cli(ctx, res, limit):
                     res.violate("C09/cli/stdout" if dbg.rc == plain.rc else "C09/cli/exit-status",
                                 "a program writing an escape sequence one character at a time: output or exit status differ between `lace run%s` and `lace debug%s` with the script %r (%s)"
                                 % (" --minimal" if mode else "", " --minimal" if mode else "", script, how), {"plain": plain.brief(), "debugged": dbg.brief()})
+    # looking at the source in the decorated mode (where `assembly` shows lines of context): at origin x0000, and around a
+    # word the program has just stored into - whichever line of the window it is
+    _write(os.path.join(d, "at_zero.asm"), ".orig x0000\nlea r0 m\nputs\nhalt\nm .stringz \"hi\"\n")
+    _write(os.path.join(d, "selfmod.asm"), "ld r0 w\nst r0 t\nadd r1 r1 #1\nadd r1 r1 #1\nt add r2 r2 #1\nadd r1 r1 #1\nlea r0 m\nputs\nhalt\nw .fill x14A2\nm .stringz \"ok\"\n")
+    for prog, origin, n_st, pre in (("at_zero.asm", 0, 6, "step"), ("selfmod.asm", 0x3000, 12, "step into 2")):
+        plain = lace(ctx, ["run", prog], cwd=d, stdin=b"")
+        script = pre + ";" + ";".join("assembly x%04x" % (origin + k) for k in range(n_st)) + ";assembly;continue"
+        for mode in ([], ["--minimal"]):
+            dbg = lace(ctx, ["debug", prog] + mode + ["--command", script], cwd=d, stdin=b"")
+            res.evaluations += 1
+            res.cls("l2:assembly_of_every_statement:" + prog.split(".")[0])
+            if (dbg.rc, program_output(_SGR.sub(b"", dbg.out))[0].strip()) != (plain.rc, program_output(_SGR.sub(b"", plain.out))[0].strip()):
+                res.violate("C09/cli/stdout" if dbg.rc == plain.rc else "C09/cli/exit-status",
+                            "`assembly` asked about every statement of %s (%s output): output or exit status differ between `lace run` and `lace debug`"
+                            % (prog, "minimal" if mode else "decorated"), {"plain": plain.brief(), "debugged": dbg.brief(), "script": script})
     # a program that runs for a few million instructions before it prints and halts, under one `continue`: however long
     # it takes, it is the program's time
     _write(os.path.join(d, "long.asm"), "ld r2 n\nouter and r1 r1 #0\ninner add r1 r1 #-1\nbrnp inner\nadd r2 r2 #-1\nbrp outer\nlea r0 m\nputs\nhalt\nn .fill #%d\nm .stringz \"done\"\n"
@@ -2943,7 +2991,7 @@ def c09_cli(ctx, res, limit):
                         "a program that executes about %d million instructions: output or exit status differ between `lace run` and `lace debug --command %r`"
                         % ((18 if not ctx.thorough() else 60) * 131072 // 1000000, script), {"plain": plain.brief(), "debugged": dbg.brief()})
     res.require(["l2:debug_vs_run", "l2:debug_vs_run_with_program_input", "l2:program_prints_control_bytes", "l2:script_and_program_input_share_stdin", "l2:program_input_read_under_the_debugger",
-                 "l2:escape_sequence_written_across_pauses", "l2:millions_of_instructions_under_one_continue"], "L2")
+                 "l2:escape_sequence_written_across_pauses", "l2:millions_of_instructions_under_one_continue", "l2:assembly_of_every_statement:at_zero", "l2:assembly_of_every_statement:selfmod"], "L2")
 
 
 # ------------------------------------------------------------------ C20 (L2: the line editor on a real terminal)
@@ -3352,7 +3400,11 @@ def c01_cli(ctx, res, limit):
     # statements that have no encoding (an operand one beyond its field, in every spelling) produce no image
     d5 = _dir(ctx, "c01_none")
     beyond = ["and r1 r2 x10", "add r1 r2 0x10", "ADD R1 R2 X10", "add r1 r2 #16", "and r1 r2 x-11", "add r1 r2 #-17", "ldr r1 r2 x20", "str r1 r2 0X20", "ldr r1 r2 #32", "str r1 r2 x-21", "ldr r1 r2 #-33",
-              "trap x100", "trap #256", "br x100", "ld r1 #256", "lea r1 x-101", "jsr x400", "jsr #-1025", "st r1 #-257", ".fill x10000", ".fill #65536", ".fill #-32769", ".orig x10000"]
+              "trap x100", "trap #256", "br x100", "ld r1 #256", "lea r1 x-101", "jsr x400", "jsr #-1025", "st r1 #-257", ".fill x10000", ".fill #65536", ".fill #-32769", ".orig x10000",
+              # a minus sign in front of more than x8000 is no 16-bit value, whatever it would wrap to
+              ".fill x-FFFF", "add r0 r0 x-FFF1", ".fill x-8001", "ld r0 x-FFFF", "and r1 r1 0x-FFF0",
+              # a label 65521 (65300, 65536 - 14) words away is out of reach of every field: distances are not taken modulo 65536
+              "far halt\n.blkw #65520\nld r0 far", "far halt\n.blkw #65300\nbr far", "lea r1 far\n.blkw #65530\nfar halt", "jsr far\n.blkw #65000\nfar ret"]
     for k, stmt in enumerate(beyond):
         name = "n%d.asm" % k
         _write(os.path.join(d5, name), stmt + "\nhalt\n")
